@@ -91,8 +91,8 @@ MODEL_SHIFT = 0.15      # px, least-squares registration offset of model vs imag
 MODEL_BIAS = 0.08       # mean relative residual (measured max 0.032)
 POLAR_TOL = 1e-12       # scalar vs array form
 USABLE_MIN = 0.70
-MAG_CEN, MAG_EPS, MAG_INT = 1e-3, 1e-4, 1e-6   # fit_isophote on a rescaled image vs the original (measured max
-                                            # 6.4e-6 px, 5.1e-7, 1.2e-8; float32 pixels: 1.1e-6 px, 1.3e-8, 1.1e-8)
+MAG_CEN, MAG_EPS, MAG_INT = 1e-3, 1e-4, 1e-5   # fit_isophote on a rescaled image vs the original (measured max
+                                            # 6.4e-6 px, 1.6e-6, 1.3e-7; float32 pixels: 1.1e-6 px, 8.1e-8, 2.6e-8)
 BIG_VALUES = 1.0e7
 
 
@@ -178,7 +178,8 @@ def _worst(case, items, what, mech, unit=''):
     if not items:
         return
     r, d = max(items, key=lambda t: t[0])
-    if not mech.get('astep_px_in_geometry'):      # (known broken configuration: keep the measured maxima clean)
+    if not mech.get('astep_px_in_geometry') and not mech.get('big_values'):   # (known broken configurations:
+        # keep the measured maxima clean)
         case.dev(what + '_over_band' + ('_nearest' if mech.get('integrmode') == 'nearest_neighbor' else ''), r)
     case.check(r <= 1.0, what, mech, worst_ratio_to_band=r, **d)
 
@@ -214,7 +215,8 @@ def _recovery(case, spec, isos, mech, m):
         tol = max(3.0 * float(iso.int_err or 0.0), INT_REL * ft)
         items['intens'].append((abs(iso.intens - ft) / tol, dict(d, obs=iso.intens, exp=ft, tol=tol,
                                                                 err=iso.int_err)))
-        if not off_truth and not mech.get('astep_px_in_geometry') and not spec.get('no_recovery'):
+        if not off_truth and not mech.get('astep_px_in_geometry') and not spec.get('no_recovery') \
+                and not mech.get('big_values'):
             mode = mech.get('integrmode', 'bilinear')
             sfx = '_nearest' if mode == 'nearest_neighbor' else ''
             if free['c']:
